@@ -37,6 +37,24 @@ CHECKS = {
         design='3 (C04)',
         note='marker records may answer POSKeyError or None; empty '
              'transactions may be omitted from undoLog'),
+    'C05': dict(
+        technique='exhaustive fault-point and abort-phase enumeration over '
+                  'all prefix histories up to a depth on the real storages, '
+                  'before/after comparison of files and query battery',
+        text='For every prefix history (depth 3 quick) and every victim '
+             'transaction - abort at every phase with and without a '
+             'concurrent-style read, one injected ENOSPC at every raw '
+             'write/truncate/create/fsync of begin+stores+vote incl. torn '
+             'writes, quota, conflict, over-long metadata, a refused or '
+             'aborted undo, a failing second resource manager, calls with the '
+             'wrong transaction - the real storage is rebuilt, the victim run, '
+             'and files + battery compared with the pre-victim snapshot; a '
+             'follow-up commit must succeed (controlled locks turn a leaked '
+             'commit lock into a DeadlockError) and the reopened storage must '
+             'equal model + follow-up.',
+        design='3 (C05)',
+        note='one injected failure per victim (deviation bound 1); failures '
+             'of the cleanup ops of the abort itself are outside the oracle'),
     'C19': dict(
         technique='explicit-state exploration of the real fsIndex over a '
                   '12-key alphabet, every query compared with a sorted dict',
